@@ -41,6 +41,8 @@ def execute(w, op, by_name, res, tape, fp):
         _analyze_verdict(w, res)
     elif k == "archive_check":
         _archive_check(w, res)
+    elif k == "twin_check":
+        _twin_check(w, res)
     elif k == "stop_check":
         # C13: after any history the engine stays responsive to Stop
         # a Stop that arrives while the engine is Restarting is legitimately refused: the user retries
@@ -336,3 +338,84 @@ def _analyze_verdict(w, res):
                     f"analysis reported no error but line {lines[:1]} failed at run time: {text[:300]}")
             return
     res.probe("accepted_method_failed_other_cause")
+
+
+def _twin_check(w, res):
+    """C14: injected code does not change which method lines have started or completed. The same plan is executed once
+    more without its injections (fresh engine, same ticks, trajectory and requests); when both runs reach the end of the
+    method and come to rest, the method state before the final Stop is the same."""
+    from simcore.core import Recorder, RunResult
+    from .world import EngineWorld
+    plan = getattr(w, "plan", None)
+    if plan is None or not getattr(w, "quiescent", False) or getattr(w, "final_method_state", None) is None:
+        return
+    if "edit" in w.ctx_flags or "err" in w.ctx_flags or any(op[0] in ("edit", "cancel", "force") for op in plan["ops"]):
+        return
+    # injected code that opens / ends blocks, or starts a command that the method uses too (or an overlapping one: the
+    # newer request replaces the method's command by design), legitimately interacts with the method's lines
+    groups = [{"LongA", "LongB"}, {"LongB", "LongC"}]
+    method_cmds = {n.kind for n in model.parse(plan["method"]).walk() if n.kind in model.UOD}
+    rivals = set(method_cmds)
+    for g in groups:
+        if g & method_cmds:
+            rivals |= g
+    for op in plan["ops"]:
+        if op[0] == "inject":
+            for ln in str(op[1]).split("\n"):
+                name = ln.strip().split(":")[0].strip()
+                name = name.split(" ")[-1] if name and name[0].isdigit() else name
+                if name in ("Block", "End block", "End blocks") or name in rivals:
+                    return
+    r2 = RunResult()
+    t = EngineWorld(r2, Recorder())
+    try:
+        t.set_method_text("", lines=[tuple(x) for x in plan["method"]])
+        vol_rate = 0.0
+        ms = None
+        for op in plan["ops"]:
+            k = op[0]
+            if k == "tick":
+                for _ in range(op[1]):
+                    if vol_rate:
+                        t.hw.inputs["VOL"] = round(t.hw.inputs["VOL"] + vol_rate * op[2] / 0.1, 6)
+                    t.tick(op[2])
+            elif k == "user":
+                t.user_command(op[1])
+            elif k == "pv":
+                t.hw.inputs[op[1]] = op[2]
+            elif k == "volrate":
+                vol_rate = op[1]
+            elif k == "settle":
+                n = 0
+                while n < op[1]:
+                    if any(e[1] == "method_end" for e in t.events) and not t.uod.command_instances and t.state == "Running":
+                        break
+                    if t.state == "Stopped" and n > 3:
+                        break
+                    t.tick(0.1)
+                    n += 1
+                for _ in range(4):
+                    t.tick(0.1)
+            elif k == "end_stop":
+                if not (any(e[1] == "method_end" for e in t.events) and not t.uod.command_instances):
+                    return
+                ms = t.method_state()
+                break
+        if ms is None or t.exceptions or any(e[1] == "method_error" for e in t.events):
+            return
+    finally:
+        t.close()
+    a = w.final_method_state
+    # lines in Watch / Alarm bodies are left out: interrupts keep firing after the method's end, and the two runs come to
+    # rest a few ticks apart (the injected code takes ticks), so such a line may have started in one and not yet in the other
+    tree = model.parse(plan["method"])
+    ids = {n.id for n in tree.walk() if n.kind != "root" and not any(x.kind in ("Watch", "Alarm") for x in n.ancestors())
+           and n.kind not in ("Watch", "Alarm")}
+    for name in ("started_line_ids", "executed_line_ids", "failed_line_ids"):
+        x, y = set(getattr(a, name)) & ids, set(getattr(ms, name)) & ids
+        if x != y:
+            res.add("C14", "C14.injection_changed_method_state", name.split("_")[0], w.tick_no,
+                    f"at rest the run with injected code reports {name} {sorted(x)}, the same run without the injections "
+                    f"{sorted(y)} (only in one of them: {sorted(x ^ y)})")
+            return
+    res.probe("twin_run_compared")
